@@ -53,3 +53,12 @@ claim("C19", "exploration",
       "every (chip, link) for FPGA links (presence iff the link leaves the board, 48 distinct ids) also through machine coordinates "
       "and root offsets; board counts 0..3000 for standard dimensions.",
       "Tile model written in /verif from the documented board shape.", "DESIGN.md section 4, C19")
+claim("C06", "model_checking",
+      "The real send_scp_burst runs on a virtual socket/select/clock; every datagram's fate (lost, duplicated, slow, at the deadline, "
+      "late by one or two timeouts, retryable code, fatal code, late fatal) and every callback's duration are choice points. All "
+      "executions with <=3 (two bursts: <=2; thorough 4/3) departures from prompt delivery are enumerated for burst shapes up to 5 "
+      "commands x window x n_tries x extra timeout x four sequence-counter configurations; a monitor checks exactly-once callbacks "
+      "with the matching reply, window, retransmission spacing and count, timeout/fatal error conditions and termination.",
+      "Virtual environment: time passes only in select()/callbacks; arrival-time menu relative to the timeout; the 16-bit counter wrap "
+      "is explored with the library's own generator at mask=3 and witnessed once on the real counter (65537 commands).",
+      "DESIGN.md section 4, C06")
